@@ -136,7 +136,12 @@ fn load(dir: &Path, req: &Value, settings: &mut Settings) -> Res<TxnData> {
                 if let Some(parent) = p.parent() {
                     std::fs::create_dir_all(parent)?;
                 }
-                std::fs::write(&p, i.get("text").and_then(|x| x.as_str()).unwrap_or(""))?;
+                if let Some(target) = i.get("symlink_to").and_then(|x| x.as_str()) {
+                    // a symbolic link (relative target) instead of a file
+                    std::os::unix::fs::symlink(target, &p)?;
+                } else {
+                    std::fs::write(&p, i.get("text").and_then(|x| x.as_str()).unwrap_or(""))?;
+                }
             }
             let sub = req.get("fs_dir").and_then(|x| x.as_str()).unwrap_or("");
             let ext = req.get("fs_ext").and_then(|x| x.as_str()).unwrap_or("txn");
@@ -247,6 +252,33 @@ fn session(req: &Value, scratch: &Path) -> Res<Value> {
         Ok(t) => t,
         Err(e) => return Ok(json!({"stage":"load","err":e.to_string()})),
     };
+    if let Some(mf) = req.get("multi_filters").and_then(|x| x.as_array()) {
+        // several transaction sets from ONE TxnData, in request order (null = get_all)
+        let mut out = Vec::new();
+        for f in mf {
+            let ts = match f.as_str() {
+                Some(fs) => {
+                    let fd = if FilterDefinition::is_armored(fs) {
+                        FilterDefinition::from_armor(fs)
+                    } else {
+                        FilterDefinition::from_json_str(fs)
+                    };
+                    match fd {
+                        Ok(fd) => txn_data.filter(&fd),
+                        Err(e) => Err(e),
+                    }
+                }
+                None => txn_data.get_all(),
+            };
+            out.push(match ts {
+                Ok(ts) => json!({"txns": raw(verif::txn_set_json(&ts)),
+                                 "metadata": verif::metadata_text(&ts, &settings)}),
+                Err(e) => json!({"err": e.to_string()}),
+            });
+        }
+        let _ = std::fs::remove_dir_all(&dir);
+        return Ok(json!({"stage":"done","multi":out}));
+    }
     let filt = match req.get("filter").and_then(|x| x.as_str()) {
         Some(f) => {
             let r = if FilterDefinition::is_armored(f) {
